@@ -53,7 +53,10 @@ if 'script' in job:
     try:
         for i, step in enumerate(job['script']):
             si, b, dirname, use_wl = step[:4]
-            keep_api = len(step) > 4 and step[4]
+            # an API description is only handed on between backends that leave it as it is: backends without
+            # preserve_aliases strip the aliases from the object they are given, by design of the compiler,
+            # which compiles the specs anew for every backend run
+            keep_api = len(step) > 4 and step[4] and backends.CONFIGS[b][0] in ('python_types', 'python_type_stubs')
             sp = [tuple(x) for x in job['spec_sets'][si]]
             steps.append(one_run(sp, b, os.path.join(root, 'step%d' % i, dirname), wl if use_wl else None,
                                  keep=job.get('keep_step') == i, reuse=(si, bool(use_wl)) if keep_api else None))
